@@ -23,9 +23,9 @@ def run(ctx):
     gb += life.sim(ctx, dict(gen, B='{"b1", "b2"}', T='{"f", "g", "h"}', CB='{"c1", "c2"}'), 100 if q else 2000, 12, "random histories over generic instantiations")
     life.replay(ctx, "life-generic", gb)
     # one builder holding a function mock, a variable mock and an interface mock at once (Mix.tla)
-    mb = ctx.behaviours(ctx.tlc("Mix", "Gen_Mix.cfg", workers=1, timeout=900, constants={"MaxOps": 4 if q else 5}, tag="mixed builder: all histories"))
+    mb = ctx.behaviours(ctx.tlc("Mix", "Gen_Mix.cfg", workers=1, timeout=900, constants={"MaxOps": 4}, tag="mixed builder: all histories"))
     mb = [b for b in mb if len({s.get("fam") for s in b} - {"all", None}) >= 2 and any(s["op"] == "Reset" for s in b)]
-    mb += ctx.behaviours(ctx.tlc("Mix", "Sim_Mix.cfg", workers=1, timeout=900, simulate="num=%d" % (200 if q else 3000), depth=15, tag="mixed builder: random histories"))
+    mb += ctx.behaviours(ctx.tlc("Mix", "Sim_Mix.cfg", workers=1, timeout=900, simulate="num=%d" % (200 if q else 2000), depth=15, tag="mixed builder: random histories"))
     from lib.replay import replay_family
     replay_family(ctx, "mix", mb, env={"GODEBUG": "clobberfree=1"}, classify=life.classify)
     # the same on many objects at once (Scale.tla): 64 targets in groups, shared / own builders, long stubs
